@@ -20,7 +20,7 @@ func init() { register(&Spec{ID: "C06", Targets: []load.Target{load.Linux}, Run:
 
 func runC06(c *core.Ctx) {
 	runFixtures(c, "drop", "valid")
-	c.Explain("Structural clauses of C06 decided from source: (R06.1) every strings.HasPrefix test of a name against a stored path (mount keys in mount.mountPoint, record keys in the in-memory store's listing) uses a prefix ending in \"/\" — 'a' never captures 'ab'; (R06.2) in the mount-table scan, every update of the best-so-far pair on the prefix path is guarded by a strict length comparison between the candidate and the current best, so the result does not depend on iteration order, and the exact-match path stores the candidate itself; (R06.3) every MountFS branch of the helpers (and mount.Rename per name) delegates with the file system and sub-path of ONE Mount call and translates the error with (err, name, subPath) of that same call — with the suite's only mount name == subPath, so a mix-up is invisible to the tests; (R06.4) the mount-table insertion is dominated by ValidPath, not-root, a successful open+Stat of the mount point — addressed through the mount point's own route, Mount(p) or Mount(path.Dir(p)) joined with path.Base(p) — and IsDir, and is an atomic LoadOrStore whose 'loaded' result is answered with ErrExist; (R06.5) cross-mount rename: after the destination was created, every failing return removes the destination first, and the source is removed only after the copy succeeded and the destination's Close returned nil; (R06.6) no call of a Mount(name) route resolution in the module passes a string that can never satisfy ValidPath (the directory half of path.Split, a concatenation ending in '/', an invalid constant): such a call always falls on the invalid-name route — the root file system — whatever is mounted; (R06.7) every helper that probes an optional capability interface of its file system also probes MountFS (exempt with reasons: Sub, Symlink, helpers that fall back to fs.Open) — a missing branch makes the operation fail with ErrNotImplemented through a Sub view or another MountFS although the routed file system supports it. (R06.8) the root file system is read only inside the route resolution; (R06.9) the cross-mount copy creates or truncates its destination. (R06.10) no concatenated path is a strings.Trim cutset. NOT claimed: that an operation's effect equals the direct call on the routed file system; isolation of sibling file systems; interleavings of AddMount beyond the atomic-insert shape.")
+	c.Explain("Structural clauses of C06 decided from source: (R06.1) every strings.HasPrefix test of a name against a stored path (mount keys in mount.mountPoint, record keys in the in-memory store's listing) uses a prefix ending in \"/\" — 'a' never captures 'ab'; (R06.2) in the mount-table scan, every update of the best-so-far pair on the prefix path is guarded by a strict length comparison between the candidate and the current best, so the result does not depend on iteration order, and the exact-match path stores the candidate itself; (R06.3) every MountFS branch of the helpers (and mount.Rename per name) delegates with the file system and sub-path of ONE Mount call and translates the error with (err, name, subPath) of that same call — with the suite's only mount name == subPath, so a mix-up is invisible to the tests; (R06.4) the mount-table insertion is dominated by ValidPath, not-root, a successful open+Stat of the mount point — addressed through the mount point's own route, Mount(p) or Mount(path.Dir(p)) joined with path.Base(p) — and IsDir, and is an atomic LoadOrStore whose 'loaded' result is answered with ErrExist; (R06.5) cross-mount rename: after the destination was created, every failing return removes the destination first, and the source is removed only after the copy succeeded and the destination's Close returned nil; (R06.6) no call of a Mount(name) route resolution in the module passes a string that can never satisfy ValidPath (the directory half of path.Split, a concatenation ending in '/', an invalid constant): such a call always falls on the invalid-name route — the root file system — whatever is mounted; (R06.7) every helper that probes an optional capability interface of its file system also probes MountFS (exempt with reasons: Sub, Symlink, helpers that fall back to fs.Open) — a missing branch makes the operation fail with ErrNotImplemented through a Sub view or another MountFS although the routed file system supports it. (R06.8) the root file system is read only inside the route resolution; (R06.9) the cross-mount copy creates or truncates its destination. (R06.10) no concatenated path is a strings.Trim cutset. (R06.11) file-system values are compared only inside a recovering function; (R06.12) the cross-mount copy is reached only where the two routed file systems were found to differ; R06.4 requires LoadOrStore itself. NOT claimed: that an operation's effect equals the direct call on the routed file system; isolation of sibling file systems; interleavings of AddMount beyond the atomic-insert shape.")
 	c.Assume("A1: FS contract for mounted file systems", "A2: sync.Map.LoadOrStore is atomic")
 	c.RuleDoc("R06.1", "element-boundary prefix tests")
 	c.RuleDoc("R06.2", "longest match independent of iteration order")
@@ -28,6 +28,8 @@ func runC06(c *core.Ctx) {
 	c.RuleDoc("R06.4", "AddMount: validate, existing directory, atomic insert")
 	c.RuleDoc("R06.5", "cross-mount rename cleanup and ordering")
 	c.RuleDoc("R06.8", "the root file system is addressed only through the route resolution")
+	c.RuleDoc("R06.12", "the cross-mount copy runs only where the two routed file systems were found to differ")
+	c.RuleDoc("R06.11", "file-system interface values are compared only under recover (uncomparable dynamic types panic)")
 	c.RuleDoc("R06.10", "no path is used as the cutset of strings.Trim/TrimLeft/TrimRight")
 	c.RuleDoc("R06.9", "the cross-mount copy creates or truncates its destination")
 	c.RuleDoc("R06.7", "every capability-probing helper has a MountFS branch")
@@ -64,6 +66,8 @@ func runC06(c *core.Ctx) {
 		r06RootOnlyThroughRoutes(c, p, "R06.8")
 		r06DestinationTruncated(c, p)
 		r06NoVariableCutset(c, p, "R06.10", "mount", "", "tar", "os", "keyvalue", "cache")
+		r06NoRawFSComparison(c, p)
+		r06CopyOnlyBetweenDifferentFS(c, p)
 	}
 	c.Floor("R06.1", 2)
 	c.Floor("R06.2", 2)
@@ -75,6 +79,8 @@ func runC06(c *core.Ctx) {
 	c.Floor("R06.8", 2)
 	c.Floor("R06.9", 1)
 	c.Floor("R06.10", 1)
+	c.Floor("R06.11", 1)
+	c.Floor("R06.12", 1)
 }
 
 // r06Longest: stores into the captured result cells inside the Range callback.
@@ -333,7 +339,7 @@ func r06AddMount(c *core.Ctx, p *load.Program) {
 			if !ok || len(cl.Call.Args) != 3 {
 				return
 			}
-			if ssax.CalleeIs(cl, "sync", "(*Map).LoadOrStore") || ssax.CalleeIs(cl, "sync", "(*Map).Store") {
+			if ssax.CalleeIs(cl, "sync", "(*Map).LoadOrStore") || ssax.CalleeIs(cl, "sync", "(*Map).Store") || ssax.CalleeIs(cl, "sync", "(*Map).Swap") {
 				ins, in = cl, fn
 			}
 		})
@@ -399,7 +405,9 @@ func r06AddMount(c *core.Ctx, p *load.Program) {
 		missing = append(missing, "IsDir() true")
 	}
 	// atomic insert
-	if !ssax.CalleeIs(ins, "sync", "(*Map).LoadOrStore") {
+	if ssax.CalleeIs(ins, "sync", "(*Map).Swap") {
+		missing = append(missing, "atomic LoadOrStore — Swap REPLACES the file system already mounted there before the call answers ErrExist: a rejected AddMount takes over the mount point")
+	} else if !ssax.CalleeIs(ins, "sync", "(*Map).LoadOrStore") {
 		missing = append(missing, "atomic LoadOrStore (a plain Store after a separate Load lets two concurrent mounts of one point both succeed)")
 	} else {
 		loaded := ssax.ExtractOf(ins, 1)
@@ -1015,4 +1023,112 @@ func rangeCallbackOf(fn *ssa.Function) *ssa.Function {
 		})
 	})
 	return cb
+}
+
+// r06NoRawFSComparison (R06.11): no `==` / `!=` between two file-system interface values in packages mount and the
+// root package, except inside a function that recovers (sameFS): comparing two interface values whose dynamic type is
+// the same uncomparable struct (a user's wrapper mounted by value, with a slice, map or func field) panics at run time.
+func r06NoRawFSComparison(c *core.Ctx, p *load.Program) {
+	fsI := stdIface(p, "io/fs", "FS")
+	if fsI == nil {
+		c.Hard("anchor: io/fs.FS")
+		return
+	}
+	bad := ""
+	guarded := 0
+	for _, rel := range []string{"mount", ""} {
+		for _, fn := range pkgFuncs(p, rel) {
+			recovers := false
+			root := fn
+			for root.Parent() != nil {
+				root = root.Parent()
+			}
+			ssax.InstrsDeep(root, func(_ *ssa.Function, ins ssa.Instruction) {
+				if cl, ok := ins.(*ssa.Call); ok {
+					if b, ok := cl.Call.Value.(*ssa.Builtin); ok && b.Name() == "recover" {
+						recovers = true
+					}
+				}
+			})
+			ssax.Instrs(fn, func(ins ssa.Instruction) {
+				bo, ok := ins.(*ssa.BinOp)
+				if !ok || (bo.Op != token.EQL && bo.Op != token.NEQ) {
+					return
+				}
+				isFS := func(v ssa.Value) bool {
+					if ssax.IsNilConst(v) {
+						return false
+					}
+					it, ok := v.Type().Underlying().(*types.Interface)
+					return ok && types.Implements(v.Type(), fsI) && it.NumMethods() > 0
+				}
+				if !isFS(bo.X) || !isFS(bo.Y) {
+					return
+				}
+				if recovers {
+					guarded++
+					return
+				}
+				if bad == "" {
+					bad = fname(fn) + " at " + p.Pos(bo.Pos())
+				}
+			})
+		}
+	}
+	c.Check(bad == "" && guarded > 0, "R06.11", "mount|file-system-values-compared-under-recover-only", "-", fmt.Sprintf("%d comparison(s) of file-system values, each inside a function that recovers", guarded),
+		fmt.Sprintf("%s compares two file-system interface values with == outside a recovering function: for two values of one uncomparable struct type (a wrapper mounted by value that has a slice, map or func field) the comparison panics — a Rename between such mounts crashes instead of being routed", bad))
+}
+
+// r06CopyOnlyBetweenDifferentFS (R06.12): the copy of mount.Rename (the OpenFile that creates/truncates the destination)
+// is reached only on the false edge of a comparison of the two ROUTED FILE SYSTEMS — directly, or through a module
+// function handed both (sameFS). Different mount points are not enough: one file system mounted at two points routes
+// a/f and b/f to the same file, and the copy truncates its own source before reading it (Rename returns nil, the file is gone).
+func r06CopyOnlyBetweenDifferentFS(c *core.Ctx, p *load.Program) {
+	rn := p.Method("mount", "FS", "Rename")
+	if rn == nil {
+		return
+	}
+	var create *ssa.Call
+	ssax.Instrs(rn, func(ins ssa.Instruction) {
+		if cl, ok := ins.(*ssa.Call); ok && (ssax.CalleeIs(cl, mod, "OpenFile") || ssax.CalleeIs(cl, mod, "Create") || ssax.CalleeIs(cl, mod, "WriteFullFile")) {
+			create = cl
+		}
+	})
+	if create == nil {
+		return // R06.5 reports the missing anchor
+	}
+	newFS := create.Call.Args[0]
+	isOtherFS := func(v ssa.Value) bool {
+		_, isIface := v.Type().Underlying().(*types.Interface)
+		return isIface && v != newFS && !ssax.IsNilConst(v)
+	}
+	found := false
+	for _, f := range ssax.FactsAtInstr(create) {
+		switch x := f.Cond.(type) {
+		case *ssa.BinOp:
+			// newMount != oldMount held, or newMount == oldMount did not
+			if (x.Op == token.EQL && !f.Val || x.Op == token.NEQ && f.Val) && (x.X == newFS && isOtherFS(x.Y) || x.Y == newFS && isOtherFS(x.X)) {
+				found = true
+			}
+		case *ssa.Call:
+			callee := ssax.StaticCallee(x)
+			if f.Val || callee == nil || !p.InModule(callee) || len(x.Call.Args) != 2 {
+				continue
+			}
+			if x.Call.Args[0] == newFS && isOtherFS(x.Call.Args[1]) || x.Call.Args[1] == newFS && isOtherFS(x.Call.Args[0]) {
+				// the callee compares its two parameters
+				ssax.Instrs(callee, func(ins ssa.Instruction) {
+					if bo, ok := ins.(*ssa.BinOp); ok && bo.Op == token.EQL {
+						_, px := bo.X.(*ssa.Parameter)
+						_, py := bo.Y.(*ssa.Parameter)
+						if px && py {
+							found = true
+						}
+					}
+				})
+			}
+		}
+	}
+	c.Check(found, "R06.12", "mount.Rename|copy-only-between-different-file-systems", p.Pos(create.Pos()), "the copy is dominated by 'the two routed file systems differ'",
+		"mount.Rename copies (creates/truncates the destination) wherever the two mount POINTS differ, without having compared the two routed file systems: with one file system mounted at two points, Rename(\"a/f\", \"b/f\") opens its own source with O_TRUNC, copies 0 bytes, removes the \"source\" and returns nil — the file is destroyed")
 }
